@@ -13,6 +13,7 @@ if ! git -C $wt apply --3way $d/patch.diff 2>/tmp/mutres/$name.apply.log; then
 fi
 git -C $wt diff HEAD > /tmp/mutres/$name.rebased.diff
 run_demo() { (cd $1 && PYTHONPATH=$1 NUMBA_CACHE_DIR=$1/.nbdemo PYTHONWARNINGS=ignore timeout 600 /venv/bin/python $d/demo.py >/tmp/mutres/$name.demo_$2.log 2>&1; echo $?); }
+if [ -z "$SKIP_DEMO" ]; then
 demo_mut=$(run_demo $wt mut)
 # clean HEAD copy for the negative control
 ct=/tmp/mw_${name}_clean
@@ -20,6 +21,9 @@ git -C /repo worktree remove --force $ct 2>/dev/null; rm -rf $ct
 git -C /repo worktree add -q --detach $ct HEAD
 demo_clean=$(run_demo $ct clean)
 git -C /repo worktree remove --force $ct
+else
+demo_mut=null; demo_clean=null
+fi
 suite=skipped
 if [ -z "$SKIP_SUITE" ]; then
   /venv/bin/python /verif/tools/baseline.py --repo $wt -n ${SUITE_N:-6} > /tmp/mutres/$name.suite.log 2>&1; suite=$?
